@@ -1,13 +1,14 @@
 // C17 — config decoding: unknown keys rejected, defaults kept, values validated,
 // ${env:..} / ${property:..#..} placeholders substituted.
 //
-// Shared plumbing of the four tests:
+// Shared plumbing of the five tests:
 //
 //	TestValid                  generated valid configs are accepted; every section decodes to
 //	                           "registered default overlaid with exactly the given keys"
 //	TestMutations              one unknown key / wrongly typed value / constraint violation /
 //	                           missing required key / bad type name ⇒ rejected
 //	TestPlaceholders           literal ≡ placeholder variant; unresolved placeholder ⇒ rejected
+//	TestScenarioPlaceholders   the same for every scalar of generated scenario description files
 //	TestDiscardOverflowDefault the real CLI reader turns an absent discard_overflow into true
 //
 // "Rejected" = an error from config.DecodeAndValidate or from the first call of a
